@@ -12,6 +12,10 @@ CHECKS = {
          "Input and output of every evaluation are compared by a checker-side normal form that erases only the differences the property allows (trivia, redundant parentheses outside multi-value positions, separators, quote/escape/number spelling, call sugar) and by an independent token stream; held on the executions produced."),
  "C03": ("exploration", "7 C03", "own-lexer comment census (multiset of kind, level, text) and token stream, input vs output",
          "Every comment of every evaluated program is accounted for in the output under the two permitted normalisations; known comment-slot defects of the unchanged tree are listed by slot signature in known_findings.jsonl."),
+ "C04": ("exploration", "7 C04", "exhaustive enumeration of string-literal bodies / numeric spellings; own literal decoders on input vs output literal, paired by position",
+         "The escape-relevant body space is enumerated completely up to the stated length bound (and numerals from a per-dialect grammar), every literal is pushed through the real formatter in 4 positions x 4 quote styles x 2 line endings and decoded on both sides by the checker's own decoder; complete within the bound, silent beyond it."),
+ "C05": ("exploration", "7 C05", "exhaustive small-scope enumeration of operator pairs x parenthesis positions x contexts x width classes; normal-form (tree shape) and re-parse oracle; H1 trace measures paths",
+         "Every operator pair (all precedence levels, both associativities), every parenthesis position of the templates, 15 contexts, short/long operands and 4 width classes are enumerated completely at depth 2 (depth 3 over precedence-class representatives in the thorough tier); the hook trace shows that both the single-line and the hanging parenthesis rule were evaluated."),
  "C06": ("exploration", "7 C06", "byte comparison of format(format(p)) with format(p) over corpus grid + critical widths (pinned) and tame generated programs (seeded)",
          "Second-pass equality checked on every evaluation; the unchanged tree is not idempotent at many narrow/critical widths (known findings keyed by statement hash), so the seeded part is restricted to the region where idempotence holds today (ordinary code, width >= 120) and the pinned part carries the regression power."),
  "C07": ("exploration", "7 C07", "catch_unwind + subprocess abort attribution + logical step (tick) budget + parser agreement over valid, extreme and destroyed inputs",
